@@ -13,7 +13,8 @@ import Sqljson.Lemmas.ApiGood
   mode) the bounds are clipped to `0 .. n-1`;
 * `slice_positions`: the elements selected by clipped bounds are exactly positions `from..to`;
 * `lax_wrap`: in lax mode a non-array is subscripted as the one-element array of itself;
-  `strict_non_array`: in strict mode it is the structural error;
+  `strict_non_array`: in strict mode it is the structural error — unless structural errors are
+  ignored (below `.**`), where the item is skipped (`strict_non_array_below_any`, repair D31);
 * `select_nulls_dropped_counterexample` (known finding D6, pinned by the suite's own test
   `TestExecArrayIndex/skip_nil`): a selected JSON `null` element is dropped, so the full statement
   "JSON null elements included" is false of the code; `elem_step_non_null` is the partial statement.
@@ -128,12 +129,28 @@ theorem lax_wrap (c : Ctx) (v : Item) (hlax : c.lax = true) (hv : v.isArr = fals
 
 theorem array_itself (c : Ctx) (xs : List Item) : arrayOf c (.arr xs) = some xs := rfl
 
-/-- strict mode: subscripting a non-array is the structural error -/
-theorem strict_non_array (c : Ctx) (item : ItemK) (s : St) (subs : List Node) (nx : Option Node) (v : Item)
-    (f : Found) (hstrict : c.lax = false) (hv : v.isArr = false) :
-    execArrayIndex c item s subs nx v f = returnVerboseError s f := by
+/-- strict mode: subscripting a non-array is a *structural* mismatch (repair D31): the error, unless
+structural errors are being ignored (below `.**`), in which case the item is skipped -/
+theorem strict_non_array_structural (c : Ctx) (item : ItemK) (s : St) (subs : List Node) (nx : Option Node)
+    (v : Item) (f : Found) (hstrict : c.lax = false) (hv : v.isArr = false) :
+    execArrayIndex c item s subs nx v f = structural s f := by
   have : arrayOf c v = none := by cases v <;> simp_all [arrayOf, Item.isArr]
   simp [execArrayIndex, this]
+
+/-- strict mode, structural errors not ignored: subscripting a non-array is the structural error -/
+theorem strict_non_array (c : Ctx) (item : ItemK) (s : St) (subs : List Node) (nx : Option Node) (v : Item)
+    (f : Found) (hstrict : c.lax = false) (hig : s.ignoreSE = false) (hv : v.isArr = false) :
+    execArrayIndex c item s subs nx v f = returnVerboseError s f := by
+  rw [strict_non_array_structural c item s subs nx v f hstrict hv]
+  simp [structural, hig]
+
+/-- strict mode below `.**` (structural errors ignored): a subscript on a non-array selects nothing,
+and changes neither the state nor the items found so far -/
+theorem strict_non_array_below_any (c : Ctx) (item : ItemK) (s : St) (subs : List Node) (nx : Option Node)
+    (v : Item) (f : Found) (hstrict : c.lax = false) (hig : s.ignoreSE = true) (hv : v.isArr = false) :
+    execArrayIndex c item s subs nx v f = ⟨s, f, .notFound, none⟩ := by
+  rw [strict_non_array_structural c item s subs nx v f hstrict hv]
+  simp [structural, hig]
 
 /-- one selected non-null element: it is handed to the rest of the chain (appended when there is none) -/
 theorem elem_step_non_null (c : Ctx) (item : ItemK) (acc : IAcc) (v : Item) (l : List Item)
